@@ -880,9 +880,12 @@ impl StreamsState {
         let receive_window = receive_window.into();
         let mut expanded = false;
         if receive_window > self.receive_window {
-            self.local_max_data = self
-                .local_max_data
-                .saturating_add(receive_window - self.receive_window);
+            // Growth first cancels shrinkage that has not been absorbed by read credits yet;
+            // otherwise shrinking and re-expanding would raise the limit beyond the window.
+            let growth: u64 = receive_window - self.receive_window;
+            let repaid = growth.min(self.receive_window_shrink_debt);
+            self.receive_window_shrink_debt -= repaid;
+            self.local_max_data = self.local_max_data.saturating_add(growth - repaid);
             expanded = true;
         } else {
             let diff = self.receive_window - receive_window;
